@@ -103,7 +103,7 @@ CHECKS = {
  "C20": dict(
    engine="E-prog program-table checker (typestate/check.py)", cat="model_checking", ref="DESIGN.md §3 C20",
    technique="model checking of a permission table (type-state x operation) against the compiler: one generated program per cell, exhaustive over the table; must-reject cells must fail with a capability-class rustc error, must-accept cells must compile and run in a forked child without faulting",
-   text="4 containers (32-byte resizable and fixed, page-sized fixed, page of data + page of spare capacity) x 5 type-states x 28 operations (incl. clone_from, byte views through trait implementations: Serialize via JSON and bincode, Debug, PartialEq, to_vec, iter) + use-after/use-result for each consuming transition + 8 stream cells = 698 programs; rustc (nightly, features nightly+serde) verdict and error class per program; ~380 compiling programs executed in forked children.",
+   text="4 containers (32-byte resizable and fixed, page-sized fixed, page of data + page of spare capacity) x 5 type-states x 30 operations (incl. clone_from, explicit zeroize followed by a transition to read-only / no-access and drop, byte views through trait implementations: Serialize via JSON and bincode, Debug, PartialEq, to_vec, iter) + use-after/use-result for each consuming transition + 8 stream cells = 738 programs (234 must-reject, 348 must-accept, 156 with no verdict demanded); rustc (nightly, features nightly+serde) verdict and error class per program; 436 compiling programs executed in forked children.",
    note="Trusted: rustc as oracle; the table is written from the statement."),
 }
 
